@@ -124,8 +124,9 @@ class T1Property:
         for f in uniq[:3]:
             sig = self.signature_of(f) if self.signature_of else {"what": f.get("what")}
             chk.failing_input(sig, {"input": f, "broken": chk.broken})
-        if chk.broken and not found:
-            for b in chk.broken:
+        if chk.broken and not chk.violations:
+            # nothing new was found on the real code (known findings do not explain a broken tie)
+            for b in chk.broken[:3]:
                 chk.unexplained(b.get("theorem") or b.get("what"), b)
         chk.coverage["rule"] = (
             "evaluations = translator-validation points (Lean Float twin vs numpy on the real lambdified "
